@@ -169,6 +169,47 @@ impl<T> From<SendError<T>> for TrySendError<T> {
     }
 }
 
+#[derive(PartialEq, Eq, Clone, Copy)]
+pub enum SendTimeoutError<T> {
+    Timeout(T),
+    Disconnected(T),
+}
+impl<T> fmt::Debug for SendTimeoutError<T> {
+    fn fmt(&self, f: &mut fmt::Formatter<'_>) -> fmt::Result {
+        match self {
+            SendTimeoutError::Timeout(..) => "Timeout(..)".fmt(f),
+            SendTimeoutError::Disconnected(..) => "Disconnected(..)".fmt(f),
+        }
+    }
+}
+impl<T> fmt::Display for SendTimeoutError<T> {
+    fn fmt(&self, f: &mut fmt::Formatter<'_>) -> fmt::Result {
+        match self {
+            SendTimeoutError::Timeout(..) => "timed out waiting on send operation".fmt(f),
+            SendTimeoutError::Disconnected(..) => "sending on a disconnected channel".fmt(f),
+        }
+    }
+}
+impl<T: Send> std::error::Error for SendTimeoutError<T> {}
+impl<T> SendTimeoutError<T> {
+    pub fn into_inner(self) -> T {
+        match self {
+            SendTimeoutError::Timeout(v) | SendTimeoutError::Disconnected(v) => v,
+        }
+    }
+    pub fn is_timeout(&self) -> bool {
+        matches!(self, SendTimeoutError::Timeout(_))
+    }
+    pub fn is_disconnected(&self) -> bool {
+        matches!(self, SendTimeoutError::Disconnected(_))
+    }
+}
+impl<T> From<SendError<T>> for SendTimeoutError<T> {
+    fn from(e: SendError<T>) -> Self {
+        SendTimeoutError::Disconnected(e.0)
+    }
+}
+
 #[derive(PartialEq, Eq, Clone, Copy, Debug)]
 pub enum RecvTimeoutError {
     Timeout,
@@ -335,6 +376,53 @@ impl<T> Sender<T> {
         wake(recv_key(id));
         sim_log(|| format!("try_send ch{id:x} #{t}"));
         Ok(())
+    }
+
+    /// The simulation has no clock for the library: a send with a timeout makes its offer, gives
+    /// the other threads one chance to run and reports `Timeout` if there is still no room (for
+    /// a rendezvous channel: if nobody took the offered message) - the peer was slower than the
+    /// timeout, which a real deployment can meet at any time.
+    pub fn send_timeout(&self, msg: T, _timeout: std::time::Duration) -> Result<(), SendTimeoutError<T>> {
+        let cap = lock(&self.ch).cap;
+        if cap == Some(0) {
+            sched_point();
+            let mut g = lock(&self.ch);
+            let id = g.id;
+            if g.receivers == 0 {
+                drop(g);
+                return Err(SendTimeoutError::Disconnected(msg));
+            }
+            g.sent += 1;
+            let t = g.sent;
+            g.q.push_back((t, msg));
+            drop(g);
+            wake(recv_key(id));
+            sim_log(|| format!("send_timeout ch{id:x} #{t} rendezvous-offer"));
+            sched_point();
+            let mut g = lock(&self.ch);
+            return match g.q.iter().position(|(k, _)| *k == t) {
+                None => Ok(()),
+                Some(pos) => {
+                    let (_, m) = g.q.remove(pos).unwrap();
+                    let gone = g.receivers == 0;
+                    drop(g);
+                    sim_log(|| format!("send_timeout ch{id:x} #{t} -> timeout"));
+                    Err(if gone { SendTimeoutError::Disconnected(m) } else { SendTimeoutError::Timeout(m) })
+                }
+            };
+        }
+        match self.try_send(msg) {
+            Ok(()) => Ok(()),
+            Err(TrySendError::Disconnected(m)) => Err(SendTimeoutError::Disconnected(m)),
+            Err(TrySendError::Full(m)) => {
+                sched_point();
+                match self.try_send(m) {
+                    Ok(()) => Ok(()),
+                    Err(TrySendError::Disconnected(m)) => Err(SendTimeoutError::Disconnected(m)),
+                    Err(TrySendError::Full(m)) => Err(SendTimeoutError::Timeout(m)),
+                }
+            }
+        }
     }
 
     pub fn capacity(&self) -> Option<usize> {
